@@ -403,7 +403,9 @@ theorem follow_untyped (M : Model) : ∀ fuel : Nat,
                       exact hfin _ rfl h.symm
                     · rename_i cn cargs hc
                       rw [hc] at r2; simp [Ty.untyped] at r2
-                    · cases h
+                    · simp only [pure, Except.pure, Except.ok.injEq] at h
+                      rw [← f1] at h
+                      exact hfin _ rfl h.symm
                 | _ =>
                   simp only [pure, Except.pure, Except.ok.injEq] at h
                   rw [← f1] at h
